@@ -276,8 +276,14 @@ def real_crash(scn):
         init = os.path.join(base, "init")
         build_tree(init, scn["tree"])
         for pre in scn.get("pre", []):
-            with Instr(init):
-                BackupManager(init).create_backup([os.path.join(init, f) for f in pre["files"]], pre["name"])
+            try:
+                with Instr(init):
+                    BackupManager(init).create_backup([os.path.join(init, f) for f in pre["files"]], pre["name"])
+            except Exception as e:  # noqa  (the code under test, not the harness)
+                out["violations"].append(["create-completes", [0, -1], f"create_backup({pre['name']!r}) of existing regular "
+                                          f"files {pre['files']} raised {exn_name(e)}: {str(e)[:80]}"])
+                out["clean"], out["trace"], out["tree0"] = ["ctor-exn", exn_name(e)], [], snapshot(init)
+                return out
         tree0 = snapshot(init)
         out["tree0"] = tree0
         # clean run
@@ -291,6 +297,10 @@ def real_crash(scn):
                     res = ["ok", m.create_backup(abs_files(run, scn), scn["name"])]
                 except Exception as e:  # noqa
                     res = ["exn", exn_name(e)]
+                    if not isinstance(e, OSError) and all(isinstance(tree0.get(f), str) for f in scn["files"]) \
+                            and exn_name(e) != "HedFileError":
+                        out["violations"].append(["create-completes", [len(ins.trace), -1],
+                                                  f"create_backup of existing regular files raised {exn_name(e)}: {str(e)[:80]}"])
             trace = ins.trace
         except Exception as e:  # noqa
             res = ["ctor-exn", exn_name(e)]
@@ -331,7 +341,11 @@ def real_crash(scn):
         def outside(st):
             return {p: v for p, v in st.items() if existing or not (p == bdir or p.startswith(bdir + "/"))}
         for i, (n, k) in enumerate(pts):
-            m = BackupManager(d)
+            try:
+                m = BackupManager(d)
+            except Exception as e:  # noqa
+                out["violations"].append(["crash-cleanup", [n, k], f"constructor raised {exn_name(e)} on the reset tree"])
+                break
             with Instr(d, n, None if k < 0 else k):
                 try:
                     r = ["ok", m.create_backup(abs_files(d, scn), scn["name"])]
@@ -574,6 +588,10 @@ def real_hist(scn):
             changed = {p for p in set(before) | set(after) if before.get(p, "<absent>") != after.get(p, "<absent>")}
             # ------------- oracle (statement clauses, checked on the implementation)
             bdir = "/".join(REL_BACKUPS)
+            if st["op"] == "create" and res[0] == "exn" and res[1] != "HedFileError" and st.get("via") != "cli" \
+                    and canon(st["name"]) not in originals and f"{bdir}/{canon(st['name'])}" not in before \
+                    and all(isinstance(before.get(f), str) for f in st["files"]):
+                out["violations"].append(["create-completes", si, f"create_backup of existing regular files raised {res[1]}", None])
             if st["op"] in ("create", "stale"):
                 nm = canon(st["name"])
                 if nm in originals:
@@ -605,10 +623,20 @@ def real_hist(scn):
                 if extra:
                     out["violations"].append(["restore-touches-only", si, f"tasks={st['tasks']} also changed {sorted(extra)[:4]}", None])
                 if res == ["ok"]:
-                    # full restore: every backed-up file; task restore: every file it touched
-                    for k in (sel if not st["tasks"] else [k for k in sel if k in changed]):
+                    # full restore: every backed-up file.  Task restore: every recorded file of EVERY requested task
+                    # (marker task_<name> in the base name, for each non-empty requested name, whatever its position
+                    # in the list; a list containing an empty name is degenerate and only "touched => identical" is
+                    # required of it), and every file the restore touched.
+                    if not st["tasks"]:
+                        need = sel
+                    elif all(st["tasks"]):
+                        need = [k for k in orig if any(("task_" + t) in k.rsplit("/", 1)[-1] for t in st["tasks"])]
+                    else:
+                        need = [k for k in sel if k in changed]
+                    for k in need:
                         if after.get(k) != orig[k]:
-                            out["violations"].append(["restore-identical", si, f"{k!r} differs from the backed-up original", None])
+                            out["violations"].append(["restore-identical", si, f"tasks={st['tasks']}: {k!r} differs from "
+                                                      f"the backed-up original", None])
             if st["op"] == "remodel" and canon(st["name"]) in originals and res == ["ok"]:
                 orig = originals[canon(st["name"])]
                 for t in rec["targets"]:
@@ -811,7 +839,14 @@ def gen_tsv(rng):
     rows = ["onset\tduration\ttrial_type"]
     for i in range(rng.randint(0, 4)):
         rows.append(f"{i}.5\t{rng.choice(['0.25', 'n/a', '1'])}\t{rng.choice(['go', 'stop', 'show'])}")
-    return "\n".join(rows) + "\n"
+    x = rng.random()
+    if x < 0.7:
+        return "\n".join(rows) + "\n"
+    if x < 0.85:                                   # file written by a Windows tool
+        return "\r\n".join(rows) + "\r\n"
+    if x < 0.92:                                   # old-Mac line ends
+        return "\r".join(rows) + "\r"
+    return "\n".join(rows + ['9.5\t1\t"free\rtext"']) + "\n"     # a CR inside a quoted field
 
 
 def gen_blob(rng):
@@ -941,7 +976,8 @@ def gen_hist(rng, i):
                 live |= set(sel)
         elif x < 0.7:
             steps.append({"op": "restore", "name": name if rng.random() < 0.85 else rng.choice(["nope", name + "/"]),
-                          "tasks": rng.choice([[], [], ["go"], ["x", "go"], ["stop"], [""]]),
+                          "tasks": rng.choice([[], [], ["go"], ["x", "go"], ["stop"], [""], ["stop", "go"], ["nope", "x", "stop"],
+                                               ["go", "stop", "x"]]),
                           "via": rng.choice(["api", "cli"])})
             live |= set(sel)
         elif x < 0.85 and not bd:      # run_remodel takes no alternative backups location
@@ -1052,6 +1088,22 @@ CORPUS = [
                {"op": "write", "path": "sub/empty.bin", "data": "\x00"},
                {"op": "restore", "name": "b1", "tasks": [], "via": "cli"},
                {"op": "list"}]},
+    # several requested tasks: the files of EVERY requested task come back, the others stay; CR / CRLF bytes survive
+    {"kind": "hist", "tree": {"a_task_go_events.tsv": "onset\tduration\r\n1\t2\r\n", "b_task_stop_events.tsv": "onset\r1\r",
+                              "c_task_x_events.tsv": 'onset\tnote\n1\t"a\rb"\n', "d_task_rest_events.tsv": "onset\n4\n"},
+     "steps": [{"op": "create", "files": ["a_task_go_events.tsv", "b_task_stop_events.tsv", "c_task_x_events.tsv",
+                                          "d_task_rest_events.tsv"], "name": "b1"},
+               {"op": "restore", "name": "b1", "tasks": [], "via": "api"},
+               {"op": "write", "path": "a_task_go_events.tsv", "data": "A"},
+               {"op": "write", "path": "b_task_stop_events.tsv", "data": "B"},
+               {"op": "delete", "path": "c_task_x_events.tsv"},
+               {"op": "write", "path": "d_task_rest_events.tsv", "data": "D"},
+               {"op": "restore", "name": "b1", "tasks": ["go", "stop"], "via": "api"},
+               {"op": "write", "path": "b_task_stop_events.tsv", "data": "B2"},
+               {"op": "restore", "name": "b1", "tasks": ["nope", "x", "stop"], "via": "cli"},
+               {"op": "list"}]},
+    {"kind": "crash", "tree": {"w_events.tsv": "onset\tduration\r\n1\t2\r\n", "m.txt": "a\rb"},
+     "files": ["w_events.tsv", "m.txt"], "name": "b1", "pre": [{"name": "old", "files": ["m.txt"]}]},
     # the Coq non-vacuity instance, every crash point and every byte of every partial write
     {"kind": "crash", "tree": {"sub": None, "sub/a_task_x.t": "\x01\x02\x03", 'c"\\': "\x07"},
      "files": ["sub/a_task_x.t", 'c"\\'], "name": "b1", "all_k": True, "pre": []},
